@@ -18,7 +18,6 @@ from .. import sym, esign
 from ..tree import walk, pp, short_fn, strip_casts
 
 LEVEL = 'other'
-INCOMPLETE = True   # rule set still being armed: not claimed in MANIFEST.json yet
 UNITS = ['src/geodesy/LambertConverter.cpp']
 ENGINES = 'E-ALG + E-INT over romea-facts'
 TECHNIQUE = 'formula extraction from the AST (symbolic reading, no execution) + exact computer algebra (sympy) for the projection identities; interval/sign evaluation of log/pow arguments on both hemispheres'
